@@ -26,10 +26,11 @@ Q_CONFIGS = [None, 'class CfgShared { v = 7; arr[] = {1,2}; class Sub { t = "x";
 P_CONFIGS = [None, None, 'class CfgShared { v = 1; arr[] = {5}; };\n']
 
 # (tag, text, mutates, observes)
-FMT_MUT = [("tf2", "toFixed 2;", "fmt"), ("tf0", "toFixed 0;", "fmt"), ("tf6", "toFixed 6;", "fmt"), ("tfr", "toFixed -1;", "fmt")]
+FMT_MUT = [("tf2", "toFixed 2;", "fmt"), ("tf0", "toFixed 0;", "fmt"), ("tf6", "toFixed 6;", "fmt"), ("tfr", "toFixed -1;", "fmt"),
+           ("tfx", "__EXEC(toFixed 3)\n", "fmt")]      # print mode set by the preprocessor (expression evaluated outside of execute)
 FMT_OBS = [
     ("f1", 'diag_log ["f1", str 1.23456789];'), ("f2", 'diag_log ["f2", str [1/3, 2.5, 100000, -0.5]];'), ("f3", 'diag_log ["f3", 1/3 toFixed 4];'),
-    ("f4", 'diag_log ["f4", format ["%1|%2", 1/3, 1e10]];'), ("f5", 'diag_log ["f5", 2 + 2.25];'), ("f6", 'diag_log ["f6", str createHashMapFromArray [[1.5, 2.5]]];'),
+    ("f4", 'diag_log ["f4", format ["%1|%2", 1/3, 1e10]];'), ("f7", 'diag_log ["f7", __EVAL(1/3)];'), ("f5", 'diag_log ["f5", 2 + 2.25];'), ("f6", 'diag_log ["f6", str createHashMapFromArray [[1.5, 2.5]]];'),
 ]
 ARR_NULARS = ["allUnits", "allMapMarkers", "allDead", "vehicles", "allPlayers", "playableUnits", "switchableUnits", "allCurators", "allMissionObjects \"\""]
 NULL_ARR_EXPR = ['getArray (configFile >> "Nope" >> "a")', 'getArray configNull', 'units grpNull', 'crew objNull', 'weapons objNull', 'magazines objNull', 'getPos objNull',
@@ -77,6 +78,9 @@ _g("x1", 'diag_log ["x1", "nope" callExtension "x"];', ["ext"], ["ext"])
 _g("m1", 'diag_log ["m1", str {a + 1}, toUpper "abc", "a,b" splitString ",", [1,2,3] apply {_x * 2}];', [], ["misc"])
 _g("m2", 'diag_log ["m2", supportInfo "n:pi", count (supportInfo "u:str*")];', [], ["misc"])
 _g("m3", 'diag_log ["m3", call compile "1 + 1", parseNumber "12.5", [1,2] + [3]];', [], ["misc"])
+# listings of the operator tables: their order must not depend on which kinds of VM were created before in the process
+_g("m4", 'diag_log ["m4", cmds__ select [(count cmds__) - 6, 6], cmds__ select [900, 6], cmdsimplemented__ select [(count cmdsimplemented__) - 6, 6], count cmds__];', [], ["type"])
+_g("m5", 'diag_log ["m5", typeName 1, typeName "", typeName [], typeName {}];', ["type"], [])
 GEN_BY_TAG = {g[0]: g for g in GEN}
 
 
